@@ -174,6 +174,30 @@ CHECKS = {
         "The subprocess / fd-1 variant is not part of the registered run.",
         "DESIGN.md 3/C15",
     ),
+    "C16": (
+        "exploration",
+        "model-based history testing of the menuconfig session: UI-level action sequences replayed over MenuConfigState with an invariant after every step (Hypothesis)",
+        "Generated trees x initial sdkconfig (absent / tool-written / hand-edited with unknown, duplicate, deprecated entries) x action "
+        "sequences (toggle, typed values, choice picks, resets, jump-to, load, save) driven through a headless re-implementation of "
+        "app.py's handlers. After every step: 'needs_save() is False' must imply that the file on disk is what saving would write "
+        "(or, for hand-edited files, that a fresh session on it would save exactly that), and right after a save / at start-up on a "
+        "tool-written file needs_save() must be False. Exploration over an unbounded action space; the oracle is an implication "
+        "between the session's own claim and the bytes on disk.",
+        "Trusted: vk/mcdriver.py mirrors the Textual handlers (dialogs answered by arguments); the Textual event loop is not exercised. "
+        "Exceptions raised by an action end the history here and are C17's subject. Bounds: <=12 options, <=24 actions.",
+        "DESIGN.md 3/C16",
+    ),
+    "C17": (
+        "exploration",
+        "model-based history testing of the menuconfig model: complete action alphabet incl. jumps to invisible nodes and rejected input, invariants after every step (Hypothesis)",
+        "Generated trees rich in 'visible if' menus, menuconfig options, implicit submenus, symbol-valued ranges and set/select locks x "
+        "sequences of every action the front end can issue; after every action and the refresh the UI performs: no exception, "
+        "highlighted index inside the displayed rows, leaving a menu lands on that menu, values outside 'assignable' are not applied, "
+        "locked rows keep their value, a value the validator accepts on a changeable row becomes the option's value.",
+        "Trusted: vk/mcdriver.py mirrors the Textual handlers; the sampled pilot replay through the real Textual app is not part of the registered run. "
+        "Bounds: <=12 options, <=30 actions.",
+        "DESIGN.md 3/C17",
+    ),
 }
 
 NOT_YET = {}
